@@ -1,0 +1,14 @@
+//go:build verif
+
+package store
+
+import "github.com/ipld/go-storethehash/store/vhook"
+
+// VerifPinFlushRate pins the measured flush rate to r so that the
+// back-pressure path of Put and Remove is entered deterministically.
+func (s *Store) VerifPinFlushRate(r float64) {
+	vhook.PinRate(r)
+	s.rateLk.Lock()
+	s.flushRate = r
+	s.rateLk.Unlock()
+}
